@@ -154,6 +154,7 @@ DataStep(st, f, i, p) ==
 Step(st, f, i, p) ==
   LET n     == WireLen(f)
       \* the frame is both a violation and beyond the read limit: either rejection is conforming
+      \* (a 64-bit length with the top bit set is beyond any limit: Close 1009 is as good as 1002)
       over  == IsData(f) /\ ((p.rl > 0 /\ f.len # "msb" /\ (IF f.op = "cont" THEN st.acc ELSE 0) + n > p.rl)
                              \/ f.len = "msb")
       Proto(w) == Fail(st, i, "proto", {1002}, IF over THEN {"toobig"} ELSE {}, {w})
@@ -303,7 +304,6 @@ Pick(S, T, PS) == \E s \in S, t \in T, p \in PS : TrOK(s, t) /\ inp = [fr |-> s,
 \* Close) are enumerated in the LAST position only: what follows them is never looked at.
 AlwaysStops(f) == f.op = "close" \/ \A p \in ParamsAll, m \in BOOLEAN : V(f, m, p) # {}
 Cont(A) == {f \in A : ~AlwaysStops(f)}
-C1 == Cont(A1)
 C2 == Cont(A2)
 C3 == Cont(A3)
 
